@@ -299,8 +299,13 @@ CLAIMED['C15'] = dict(
          'failing requests, ordered and unordered) are run on /repo and on the compiled model; on '
          'python every bulk_write is replayed on a twin collection as individual calls and state, '
          'counter sums, upserted indexes, failing index and code must agree; an empty bulk and a '
-         'second execute must raise InvalidOperation.',
-    note='"execute only once" is builder state outside the model (checked on python only). A '
+         'second execute must raise InvalidOperation. The builder object itself is modelled '
+         '(Builder with its done flag): bulk_write is the first execute of a fresh builder; an '
+         'empty builder is refused; whatever the first execute did (success, BulkWriteError '
+         'half-way, abort) every later execute is refused and changes nothing '
+         '(executed_only_once, execute_n_times); tied by bulk_builder steps that drive the real '
+         'initialize_*_bulk_op API and call execute() 1-3 times.',
+    note='A '
          'ReplaceOne whose replacement starts with $ is accepted by the bulk builder and rejected '
          'by replace_one: excluded by Spec.plainRequest. Non-write errors abort an unordered bulk '
          '(stated as hypothesis hw).')
